@@ -25,6 +25,8 @@ type World interface {
 	Key() string
 	// Enabled lists the operations to try from the current state, simplest first.
 	Enabled() []Op
+	// Init evaluates the oracle on the freshly constructed world (construction faults).
+	Init() []Finding
 	Close()
 }
 
@@ -63,6 +65,9 @@ func Run(cfg Config) Result {
 	var frontier []node
 	for _, r := range cfg.Roots {
 		w := cfg.New(r)
+		for _, f := range w.Init() {
+			cfg.OnFinding(r, nil, f)
+		}
 		k := r + "|" + w.Key()
 		w.Close()
 		if _, ok := seen[k]; ok {
@@ -132,7 +137,7 @@ func replay(cfg Config, n node) World {
 func Replay(newWorld func(root string) World, root string, hist []Op) []Finding {
 	w := newWorld(root)
 	defer w.Close()
-	var all []Finding
+	all := w.Init()
 	for _, op := range hist {
 		all = append(all, w.Apply(op)...)
 	}
